@@ -15,9 +15,9 @@ from overlay import HARNESS_FILES, KANI_DIR
 
 
 def module_path(hname):
-    rel = HARNESS_FILES[hname]
+    rel, modname = HARNESS_FILES[hname]
     p = rel[len("src/"):-len(".rs")].replace("/", "::")
-    return p + "::verif"
+    return p + "::" + modname
 
 
 def parse_kv(s):
